@@ -151,6 +151,14 @@ pub fn step(ctx: &Ctx, w: &World, ev: &mut Ev) {
                 _ => {}
             }
             if series.is_empty() {
+                // nothing was ever submitted under this key: whatever "latest" or "n rounds back" serves is nobody's value
+                let key = KEYS[k.min(3)];
+                for (name, m) in [("latest", json!({"get_price": {"key": key}})), ("previous", json!({"get_previous_price": {"key": key, "num_round_back": "0"}}))] {
+                    if let Ok(x) = w.q(&w.addrs.pricefeed, m) {
+                        ev.eval(true, &("feed_no_submissions", name), || json!({"source": "feed", "query": name, "submissions": 0, "served": x.clone()}));
+                        ev.violation("feed_latest", &format!("served_without_submission,{}", name), json!({"query": name, "submissions": 0, "served": x}));
+                    }
+                }
                 continue;
             }
             let key = KEYS[k.min(3)];
